@@ -6,7 +6,7 @@ props = [json.loads(l)["id"] for l in open(os.path.join(V, "properties.jsonl"))]
 
 CHECKS = {
  "C01": dict(cat="model_checking", ref="5 C01",
-   text="TLC enumerates every program of spec/Builder.tla up to a node budget (control, effect and loop alphabets); each is replayed into PyTeal, compiled at versions 2..10, and TLC runs the emitted TEAL on spec/AVM.tla for every context of the recipe's domain, comparing verdict, return value, logs, state writes and inner transactions with spec/PyTealSem.tla (spec/Refine.tla). Exhaustive within the bounds, nothing beyond them.",
+   text="TLC enumerates every program of spec/Gen.tla up to a node budget (control, effect and loop alphabets); each is replayed into PyTeal, compiled at versions 2..10, and TLC runs the emitted TEAL on spec/AVM.tla for every context of the recipe's domain, comparing verdict, return value, logs, state writes and inner transactions with spec/PyTealSem.tla (spec/Refine.tla). Exhaustive within the bounds, nothing beyond them.",
    note="trusts the AVM/PyTeal-semantics transcriptions (calibrated against the repository's golden programs), the tokenizer glue, TLC; hashes and ledger lookups are uninterpreted",
    tech="TLA+ refinement check (TLC): Builder-generated programs replayed into PyTeal, emitted TEAL executed on an AVM spec against a big-step source semantics"),
  "C16": dict(cat="model_checking", ref="5 C16",
@@ -14,11 +14,11 @@ CHECKS = {
    note="trusts BigNat.tla (self-tested against Python integers at setup), the mulw/divmodw/cover/uncover semantics of AVM.tla, soundness of the scaled machine for width-generic code",
    tech="TLA+ refinement check (TLC): emitted WideRatio code executed on the AVM spec for enumerated operand tuples vs exact big-number semantics"),
  "C17": dict(cat="model_checking", ref="5 C17",
-   text="TLC enumerates programs with un-initialised variables from spec/Builder.tla; spec/DefInit.tla decides on the recipe whether a syntactic path reaches a load of a routine-local variable that was never stored; spec/Compile.tla judges the real compiler's outcome (must be a PyTeal error whose cause is a load of such a variable). Every recipe up to the node budget, one direction only.",
+   text="TLC enumerates programs with un-initialised variables from spec/Gen.tla; spec/DefInit.tla decides on the recipe whether a syntactic path reaches a load of a routine-local variable that was never stored; spec/Compile.tla judges the real compiler's outcome (must be a PyTeal error whose cause is a load of such a variable). Every recipe up to the node budget, one direction only.",
    note="trusts the recipe->constructor glue; 'syntactic path' = every branch both ways, loops zero or more times",
    tech="TLA+ model (DefInit) of definite initialisation evaluated by TLC on Builder-generated programs; real compile outcomes validated against it"),
  "C20": dict(cat="model_checking", ref="5 C20",
-   text="Every finished behaviour of spec/Builder.tla (well typed by construction; control, effect, loop, degenerate and un-initialised alphabets) plus long/deep size-parametrised programs is compiled by PyTeal for versions 2..10 x both modes x option settings; TLC (spec/Compile.tla) judges each outcome class: never a foreign exception, and TEAL whenever spec/Accepts.tla predicts acceptance.",
+   text="Every finished behaviour of spec/Gen.tla (well typed by construction; control, effect, loop, degenerate and un-initialised alphabets) plus long/deep size-parametrised programs is compiled by PyTeal for versions 2..10 x both modes x option settings; TLC (spec/Compile.tla) judges each outcome class: never a foreign exception, and TEAL whenever spec/Accepts.tla predicts acceptance.",
    note="Accepts.tla's version/mode table is conservative (unknown constructs are never predicted accepted)",
    tech="TLC-enumerated programs replayed into PyTeal; compile outcome classes validated by TLC against an acceptance model (Accepts/DefInit)"),
 }
